@@ -716,6 +716,82 @@ fn main() {
                 panic!("{} span ids were handed out twice among {} spans created on {} different threads (about 0.5 chance collisions are expected)", dup, n, n);
             }
         }
+        "overlapping-flushes-cancelable" => {
+            // a reporter that is slow inside report() while other threads call flush(), cancel a
+            // trace, finish spans: cycles must not overlap in a way that loses a cancel (or a
+            // record of a bystander trace, or delivers one twice)
+            struct Gated {
+                inside: Arc<std::sync::atomic::AtomicBool>,
+                open: Arc<std::sync::atomic::AtomicBool>,
+                got: Arc<Mutex<Vec<SpanRecord>>>,
+            }
+            impl Reporter for Gated {
+                fn report(&mut self, spans: Vec<SpanRecord>) {
+                    if !spans.is_empty() {
+                        self.inside.store(true, Ordering::SeqCst);
+                        let t = Instant::now();
+                        while !self.open.load(Ordering::SeqCst) && t.elapsed() < Duration::from_secs(5) {
+                            std::thread::sleep(Duration::from_millis(1));
+                        }
+                        self.inside.store(false, Ordering::SeqCst);
+                    }
+                    self.got.lock().unwrap().extend(spans);
+                }
+            }
+            let inside = Arc::new(std::sync::atomic::AtomicBool::new(false));
+            let open = Arc::new(std::sync::atomic::AtomicBool::new(true));
+            let got = Arc::new(Mutex::new(Vec::new()));
+            fastrace::set_reporter(Gated { inside: inside.clone(), open: open.clone(), got: got.clone() }, Config::default().cancelable(true).report_interval(Duration::from_secs(3600)));
+            std::thread::sleep(Duration::from_millis(30));
+            let mut rounds = 0;
+            for round in 0..12u128 {
+                let victim = Span::root("victim", SpanContext::new(TraceId(0xd100 + round), SpanId(1)));
+                let child = Span::enter_with_parent("victim-child", &victim);
+                drop(child);
+                let by = Span::root("bystander", SpanContext::new(TraceId(0xd200 + round), SpanId(1)));
+                // something to report, so that the first flush stays inside report()
+                {
+                    let t = Span::root("trigger", SpanContext::new(TraceId(0xd300 + round), SpanId(1)));
+                    drop(t);
+                }
+                open.store(false, Ordering::SeqCst);
+                let f1 = std::thread::spawn(fastrace::flush);
+                let t = Instant::now();
+                while !inside.load(Ordering::SeqCst) && t.elapsed() < Duration::from_secs(5) {
+                    std::thread::sleep(Duration::from_millis(1));
+                }
+                let was_inside = inside.load(Ordering::SeqCst);
+                victim.cancel();
+                let bchild = Span::enter_with_parent("bystander-child", &by);
+                drop(bchild);
+                // a second cycle while the first is still inside report()
+                let f2 = std::thread::spawn(fastrace::flush);
+                std::thread::sleep(Duration::from_millis(15));
+                let late = Span::enter_with_parent("victim-late-child", &victim);
+                drop(late);
+                open.store(true, Ordering::SeqCst);
+                f1.join().unwrap();
+                f2.join().unwrap();
+                drop(victim);
+                drop(by);
+                fastrace::flush();
+                fastrace::flush();
+                if was_inside {
+                    rounds += 1;
+                }
+                let recs = got.lock().unwrap();
+                let leaked: Vec<&str> = recs.iter().filter(|r| r.trace_id.0 == 0xd100 + round).map(|r| &*r.name).collect();
+                if !leaked.is_empty() {
+                    panic!("round {}: records of the cancelled trace were delivered: {:?} (cancel() was called while a flush was inside a slow report() and another flush started)", round, leaked);
+                }
+                let mut bnames: Vec<&str> = recs.iter().filter(|r| r.trace_id.0 == 0xd200 + round).map(|r| &*r.name).collect();
+                bnames.sort();
+                if bnames != ["bystander", "bystander-child"] {
+                    panic!("round {}: the bystander trace was delivered as {:?} with overlapping flushes around a slow report()", round, bnames);
+                }
+            }
+            extra = json!({"rounds": 12, "rounds_with_a_flush_inside_report_during_the_cancel": rounds});
+        }
         "deep-backlog" => {
             // more finish signals parked in one episode than the ring has slots (10240): they must
             // all get through once the collector runs again, and later traces must be complete
